@@ -276,7 +276,7 @@ fn hot_reloading_thread(
     select.recv(&cache_msg);
     select.recv(&events);
 
-    loop {
+    'thread: loop {
         // We don't use `select` method here as we always want to check
         // `cache_msg` channel first.
         #[cfg(assets_manager_verif)]
@@ -300,7 +300,9 @@ fn hot_reloading_thread(
                 }
                 Ok(CacheMessage::Clear) => cache.clear_local_cache(),
                 Ok(CacheMessage::AddAsset(infos)) => cache.add_asset(infos),
-                Err(_) => break,
+                Err(channel::TryRecvError::Empty) => break,
+                // The cache was dropped, we can stop now
+                Err(channel::TryRecvError::Disconnected) => break 'thread,
             }
         }
 
